@@ -43,9 +43,12 @@ import (
 // the locked data access of most methods (and inside the lock for list and
 // conditional get), which makes it the natural place to stretch interleavings.
 type yieldSink struct {
-	n      atomic.Uint64
-	bad    atomic.Int64
-	sample atomic.Pointer[[]byte]
+	flaky       bool // now and then the log cannot be synced (faulty histories only)
+	syncs       atomic.Uint64
+	failedSyncs atomic.Int64
+	n           atomic.Uint64
+	bad         atomic.Int64
+	sample      atomic.Pointer[[]byte]
 }
 
 func (y *yieldSink) Write(p []byte) (int, error) {
@@ -63,6 +66,16 @@ func (y *yieldSink) Write(p []byte) (int, error) {
 		runtime.Gosched()
 	}
 	return len(p), nil
+}
+
+// Sync fails now and then when the sink is flaky: the record is in the page cache, not on the disk, and the
+// request it belongs to must fail without effect.
+func (y *yieldSink) Sync() error {
+	if y.flaky && y.syncs.Add(1)%4 == 2 {
+		y.failedSyncs.Add(1)
+		return errors.New("injected: audit log fsync failed")
+	}
+	return nil
 }
 
 type input struct {
@@ -89,6 +102,9 @@ func model(initial *refmodel.Model) porcupine.Model {
 			if !i.Op.Kind.Mutating() {
 				if i.Lost {
 					return true, m
+				}
+				if i.Faulty && o.Res.Class == refmodel.Other && !o.Res.HasVal && o.Res.Meta == "" {
+					return true, m // a read that failed (its audit record could not be committed) delivered nothing
 				}
 				want := ops.ApplyModel(m, nil, true, i.Op)
 				return ops.Agree(want, o.Res), m
@@ -224,7 +240,7 @@ func TestC14(t *testing.T) {
 	if r.Only < 0 {
 		stalledFrontDoorCall(t, r, dir)
 	}
-	r.Require("stalled_front_door_calls", "histories_mixing_front_door_and_direct_calls", "puts_of_the_empty_value", "histories_db", "histories_http", "histories_linearizable", "overlapping_histories", "list_overlapping_two_puts", "same_value_puts_overlapping", "histories_over_loopback_sockets", "histories_with_failing_file_system", "calls_failed_by_io_error_under_concurrency", "calls_whose_reply_was_lost", "histories_with_a_restart")
+	r.Require("audit_syncs_failed_under_concurrency", "stalled_front_door_calls", "histories_mixing_front_door_and_direct_calls", "puts_of_the_empty_value", "histories_db", "histories_http", "histories_linearizable", "overlapping_histories", "list_overlapping_two_puts", "same_value_puts_overlapping", "histories_over_loopback_sockets", "histories_with_failing_file_system", "calls_failed_by_io_error_under_concurrency", "calls_whose_reply_was_lost", "histories_with_a_restart")
 	r.Rule("three history shapes: 'global-with-list' (4 clients x 5 ops: list/put/activate/get/delete on the first and last of 32 names, checked unpartitioned), 'per-key' (7 clients x 7 ops of all kinds on 3 names, partitioned by name), 'same-value-burst' (8 spin-synchronised clients putting the same value); audit sink injects yields/microsecond sleeps; DB API and HTTP handlers. Every history + a final sequential state read is decided by porcupine. Distinct = (shape, level, hash of the observed overlap pattern)")
 }
 
@@ -232,6 +248,7 @@ func oneHistory(t *testing.T, r *evid.Run, dir string, idx int, sh shape, level 
 	r.Eval(1)
 	rng := r.Rand(uint64(idx))
 	snk := &yieldSink{}
+	flakyLog := sh.faulty && (idx/4)%2 == 0 // (switched on once the initial state has been written)
 	dbPath := filepath.Join(dir, fmt.Sprintf("h%d.db", idx))
 	if sh.faulty {
 		os.MkdirAll(filepath.Join(dir, fmt.Sprintf("hf%d", idx)), 0o700)
@@ -337,8 +354,8 @@ func oneHistory(t *testing.T, r *evid.Run, dir string, idx int, sh shape, level 
 				op.Value = []byte(fmt.Sprintf("c%d-%d", c, uniq))
 				if sh.sameVal {
 					op.Value = []byte("the-same-value")
-				} else if rng.IntN(10) == 0 {
-					op.Value = []byte("dup")
+				} else if rng.IntN(10) == 0 || (sh.faulty && rng.IntN(2) == 0) {
+					op.Value = []byte("dup") // (in the histories with faults half of the puts repeat a value: a put that stores nothing new can fail too)
 				} else if rng.IntN(8) == 0 {
 					op.Value = []byte{} // the empty value is a value like any other
 					r.Count("puts_of_the_empty_value", 1)
@@ -410,6 +427,7 @@ func oneHistory(t *testing.T, r *evid.Run, dir string, idx int, sh shape, level 
 		}(c)
 	}
 	ready.Wait()
+	snk.flaky = flakyLog
 	gate.Store(true)
 	if restartAt >= 0 {
 		pause.Wait()
@@ -430,8 +448,10 @@ func oneHistory(t *testing.T, r *evid.Run, dir string, idx int, sh shape, level 
 	if sh.faulty {
 		r.Count("histories_with_failing_file_system", 1)
 		r.Count("calls_failed_by_io_error_under_concurrency", h.failed)
+		r.Count("audit_syncs_failed_under_concurrency", int(snk.failedSyncs.Load()))
 	}
-	// final sequential read of the whole state
+	// final sequential read of the whole state (the audit log works for it)
+	snk.flaky = false
 	final, err := realdb.Dump(d)
 	call := h.clock.Add(1)
 	st := "<inconsistent>"
